@@ -19,10 +19,10 @@ Theorem run_refines fuel declared halt (p : prog) :
   so = ss /\ oo = os /\ L = [].
 Proof.
   intros Hwf. unfold run_o, run_s.
-  pose proof (control_flow_refines state val expr eval truthy tick recatch val_seq fuel (SBlock p)
+  pose proof (control_flow_refines state val expr eval truthy tick recatch val_seq enum live bind fuel (SBlock p)
                 (init_state declared halt) Hwf) as H.
-  destruct (exec_o eval truthy tick recatch val_seq fuel (init_state declared halt) [] (SBlock p)) as [[so L] ro].
-  destruct (exec_s eval truthy tick recatch val_seq fuel (init_state declared halt) [] (SBlock p)) as [ss rs].
+  destruct (exec_o eval truthy tick recatch val_seq enum live bind fuel (init_state declared halt) [] (SBlock p)) as [[so L] ro].
+  destruct (exec_s eval truthy tick recatch val_seq enum live bind fuel (init_state declared halt) [] (SBlock p)) as [ss rs].
   destruct H as (H1 & H2 & H3). repeat split; try assumption. apply outcome_rel. exact H2.
 Qed.
 
@@ -145,3 +145,21 @@ Lemma w_wf2_ok : wf (SBlock w_wf2) = true /\
   (let '(s, L, o) := run_o 400 [10%nat; 11%nat] 0 w_wf2 in (out s, L, o)) =
     ([VNum 100; VNum 200; VNum 9; VNum 200; VNum 9; VNum 300], [], OReturned (VNum 3)).
 Proof. split; vm_compute; reflexivity. Qed.
+
+(* ---- non-vacuity of the for-in clauses of the generic theorem: a toy instance whose enumeration protocol does
+   yield names.  State = the list of names bound so far; the subject has own names 1, 2 and inherited names 3, 4;
+   name 2 is deleted before its turn; the body breaks out (unlabelled, through an if) when the name is 3:
+   both semantics visit exactly 1 and 3, otto's two nested loops are left by the one break *)
+Definition t_eval (s : list Z) (e : Z) : list Z * (Z + Z) := (s, inl (if (last s 0 =? e)%Z then 1 else 0)%Z).
+Definition t_truthy (v : Z) : bool := negb (v =? 0)%Z.
+Definition t_poll (s : list Z) : list Z * option Z := (s, None).
+Definition t_enum (s : list Z) (e : Z) : list Z * (list (list Z) + Z) := (s, inl [[1; 2]; [3; 4]]%Z).
+Definition t_live (s : list Z) (k : Z) : bool := negb (k =? 2)%Z.
+Definition t_bind (s : list Z) (t : Z) (k : Z) : list Z * option Z := (s ++ [k], None).
+Definition t_prog : stmt Z :=
+  SLabelled 1%nat (SForIn 0%Z 0%Z [SIf 3%Z (SBreak 0%nat) None; SIf 9%Z (SContinue 1%nat) None]).
+Lemma t_forin_runs :
+  wf t_prog = true /\
+  exec_o t_eval t_truthy t_poll (fun v => v) Z.eqb t_enum t_live t_bind 20 [] [] t_prog = ([1; 3]%Z, [], ONorm OEmpty) /\
+  exec_s t_eval t_truthy t_poll (fun v => v) Z.eqb t_enum t_live t_bind 20 [] [] t_prog = ([1; 3]%Z, SDone CNormal).
+Proof. repeat split; vm_compute; reflexivity. Qed.
